@@ -114,18 +114,26 @@ func runSeed(base uint64, prop string, j int) uint64 { return Mix(base, "run."+p
 
 func hashSig(s string) uint64 { h := fnv.New64a(); _, _ = h.Write([]byte(s)); return h.Sum64() }
 
+// startWatchdog kills the process when a run makes no progress. "No progress" is measured in
+// the process's own CPU time, not in wall-clock time: on a loaded machine (several checks at
+// once) a long but finite operation - a 70 000 byte text cut into 90 000 fragments - may take
+// minutes of wall time between two heartbeats, and a wall-clock limit would report it as a hang
+// (it did, once, in a thorough run: a false alarm). A loop that never ends burns CPU and is
+// caught after `limit` seconds of CPU; a run that is blocked without burning CPU is caught after
+// ten times that in wall-clock time.
 func startWatchdog(curJ *int64, limit time.Duration) {
 	go func() {
 		last := heartbeat.Load()
 		lastChange := time.Now()
+		lastCPU := processCPU()
 		for {
 			time.Sleep(500 * time.Millisecond)
 			h := heartbeat.Load()
 			if h != last {
-				last, lastChange = h, time.Now()
+				last, lastChange, lastCPU = h, time.Now(), processCPU()
 				continue
 			}
-			if time.Since(lastChange) > limit {
+			if processCPU()-lastCPU > limit || time.Since(lastChange) > 10*limit {
 				fmt.Printf("{\"t\":\"hang\",\"j\":%d}\n", *curJ)
 				os.Exit(3)
 			}
@@ -162,7 +170,7 @@ func workerMain(t *testing.T) {
 		_ = out.Flush()
 	}
 	var curJ int64
-	startWatchdog(&curJ, time.Duration(envInt("VERIF_WATCHDOG_S", 60))*time.Second)
+	startWatchdog(&curJ, time.Duration(envInt("VERIF_WATCHDOG_S", 120))*time.Second)
 	st := &workerStats{Probes: map[string]int{}, Faults: map[string]int{}, Known: map[string]int{}}
 	sigs := map[uint64]bool{}
 	begin := time.Now()
@@ -283,7 +291,7 @@ func replayMain(t *testing.T) {
 		os.Exit(2)
 	}
 	var curJ int64
-	startWatchdog(&curJ, time.Duration(envInt("VERIF_WATCHDOG_S", 60))*time.Second)
+	startWatchdog(&curJ, time.Duration(envInt("VERIF_WATCHDOG_S", 120))*time.Second)
 	rc, v := ReplayTrace(t, p, &tr, os.Getenv("VERIF_VERBOSE") != "")
 	if os.Getenv("VERIF_VERBOSE") != "" {
 		for _, l := range rc.Stats.Log {
